@@ -27,7 +27,7 @@ RULE = ("(a) workers on interpreters that provably cannot import execnet (python
         "serves a socket= gateway. distinct = distinct (interpreter, path, model, program) cases + code objects walked")
 ASSUMPTIONS = ["ssh and vagrant transports cannot be run (no server): only their command lines are checked to embed the same bootstrap line"]
 MINIMUM = {"bare_workers": 6, "programs": 60, "code_objects_walked": 150, "standalone_server_runs": 1}
-SHARD_TIMEOUT = {"quick": 240, "thorough": 3000}
+SHARD_TIMEOUT = {"quick": 150, "thorough": 3000}
 PYENV = "/root/.pyenv/versions"
 
 
